@@ -75,6 +75,8 @@ def skeletons(nmin, nmax, history=True, final=True, require=None, max_hist=1):
                 continue
             if require == 'nested-orth' and not has_nested_orth(t):
                 continue
+            if require == 'deep-history' and not (tree_depth(t) >= 5 and ("'HS'" in r or "'HD'" in r)):
+                continue
             if require == 'hd-under-orth' and not has_hd_under_orth(t):
                 continue
             out.append(t)
@@ -93,6 +95,10 @@ def has_hd_under_orth(t, under=False):
     if t[0] == 'HD' and under:
         return True
     return any(has_hd_under_orth(c, under or t[0] == 'O') for c in t[1])
+
+
+def tree_depth(t):
+    return 1 + max([tree_depth(c) for c in t[1]], default=0)
 
 
 def _has_multi_hist(t):
@@ -397,6 +403,34 @@ def build_api_rebuilt(spec):
         real.state_for(T.root).initial = rootspec.get('initial')
     for o in objs:
         real.add_transition(o)
+    return real, objs
+
+
+def build_api_moved(spec):
+    """the same statechart, reached through move_state: every composite state that is not a child of the
+    root is first added directly under the root (with its whole subtree) and moved to its real parent at
+    the end; initial / memory values that move_state resets are restored afterwards"""
+    T = Tree(spec)
+    sc, objs = build_api(spec)          # objects (states, transitions) to re-use
+    from sismic.model import Statechart
+    real = Statechart(spec.get('name', 't'), description=spec.get('description'), preamble=spec.get('preamble'))
+    to_move = [n for n in T.order if n != T.root and T.kind(n) in ('C', 'O') and T.parent(n) != T.root]
+    for s in spec['states']:
+        n = s['name']
+        real.add_state(sc.state_for(n), T.root if n in to_move else s['parent'])
+    for n in real.states:
+        real.depth_for(n), real.ancestors_for(n), real.descendants_for(n)
+    for n in to_move[::-1]:             # deepest first or not: any order gives the same final tree
+        real.move_state(n, T.parent(n))
+    for s in spec['states']:            # move_state resets initial / memory pointing to a moved state
+        o = real.state_for(s['name'])
+        if s.get('initial') is not None:
+            o.initial = s['initial']
+        if s.get('memory') is not None:
+            o.memory = s['memory']
+    for o in objs:
+        real.add_transition(o)
+    real.validate()
     return real, objs
 
 
